@@ -341,6 +341,7 @@ func (P) Generate(g *core.Gen) {
 	genTies(g)
 	genWitnessReserve(g)
 	genSegwitInactive(g)
+	genFreeArea(g)
 }
 
 func genIndependent(g *core.Gen) {
@@ -605,6 +606,11 @@ func genRealPool(g *core.Gen) {
 		if g.R.Chance(1, 3) && len(pg.s.txs) > 0 {
 			pg.randomLockPool(g.R.Intn(len(pg.s.txs)))
 		}
+		if g.R.Chance(1, 3) { // the chain grows after the pool was filled (tip moves forward only)
+			pg.s.fwd = 1 + g.R.Intn(3)
+			pg.s.pb = true
+			pg.s.now += worldSpacing * int64(pg.s.fwd)
+		}
 		s := pg.finish(false)
 		if !keysDistinct(s) {
 			continue
@@ -743,5 +749,38 @@ func genSegwitInactive(g *core.Gen) {
 		s := pg.finish(true)
 		permute(s, g.R)
 		g.Case("segwit-inactive", true, s.line())
+	}
+}
+
+// genFreeArea: the low-fee area.  BlockMinWeight sits at, one below and one
+// above the running weight before / after each transaction in fee order, the
+// fee-rate threshold splits the pool at a random rank, the maximum is far away.
+func genFreeArea(g *core.Gen) {
+	for c := 0; c < g.N(50, 400); c++ {
+		pg := newPoolGen(g.R, 0)
+		pg.randomPool(poolOpts{n: 3 + g.R.Intn(7), childProb: g.R.Intn(30), maxFee: 80000, zeroFeePct: 20, anyKind: c%2 == 0})
+		s := pg.finish(true)
+		if len(s.txs) < 2 {
+			continue
+		}
+		order := predictedOrder(s)
+		run := int64(356 + s.cbw)
+		marks := []int64{run}
+		seenWit := false
+		for _, i := range order {
+			if s.txs[i].hw && !seenWit {
+				seenWit = true
+				run += 224
+			}
+			run += s.txs[i].wt
+			marks = append(marks, run)
+		}
+		s.minW = uint32(marks[g.R.Intn(len(marks))] + g.R.Range(-1, 1))
+		rank := g.R.Intn(len(order))
+		s.minFree = s.txs[order[rank]].fpk + g.R.Range(0, 1)
+		if g.R.Chance(1, 5) {
+			s.minFree = 100000000
+		}
+		g.Case("free-area", true, s.line())
 	}
 }
